@@ -20,7 +20,7 @@ pub static ENGINE_C18: EngineF = EngineF;
 // ------------------------------------------------------------------ tokens
 
 /// split a form into tokens; strings, characters and |identifiers| are single tokens
-fn tokens(form: &str) -> Vec<String> {
+pub(crate) fn tokens(form: &str) -> Vec<String> {
     let cs: Vec<char> = form.chars().collect();
     let mut out = vec![];
     let mut i = 0;
@@ -107,7 +107,11 @@ fn gen_form(rng: &mut Rng, literals_with_parens: bool, defined: &mut Vec<String>
         5 => ("'(a (b c) #(1 2))".to_string(), "quoted-data"),
         6 => (format!("(vector {} 'x \"s\")", rng.range(0, 9)), "expression"),
         7 => ((*rng.pick(&["(car 5)", "(undefined-thing)", "(vector-ref (vector 1) 9)", "(/ 7 0)", "(\"f\" 1)"])).to_string(), "failing-runtime"),
-        8 => ((*rng.pick(&["(define)", "(if)", "(lambda)", "(let ((x)) x)"])).to_string(), "failing-syntax"),
+        8 => ((*rng.pick(&["(define)", "(if)", "(lambda)", "(let ((x)) x)", ")", "(+ 1 2) )"])).to_string(), "failing-syntax"),
+        9 if rng.chance(1, 2) => (
+            (*rng.pick(&["'()", "(< 2 1)", "\"a string\"", "#\\a", "(vector)", "(cdr '(1))", "(vector 1 (vector 2) '(3))", "'sym"])).to_string(),
+            "value-kinds",
+        ),
         9 => (format!("(if (< {} 5) 'small 'big)", rng.range(0, 9)), "expression"),
         10 => ("(display \"shown\")".to_string(), "display"),
         11 if rng.chance(1, 5) => {
@@ -145,8 +149,13 @@ fn generate_f(seed: u64, quick: bool) -> Value {
         let mut kinds = vec![];
         for _ in 0..nf {
             let (f, k) = gen_form(&mut rng, literals, &mut defined);
+            let unbalanced = tokens(&f).iter().map(|t| depth_delta(t)).sum::<i32>() != 0;
             forms.push(f);
             kinds.push(k);
+            if unbalanced {
+                // a stray parenthesis ends the submission: nothing else shares its line
+                break;
+            }
         }
         subs.push(json!({"forms": forms, "kinds": kinds}));
     }
@@ -186,7 +195,7 @@ fn generate_f(seed: u64, quick: bool) -> Value {
                 }
                 depth += depth_delta(t);
                 let last = ti + 1 == toks.len();
-                if !last && depth > 0 && t != "'" && rng.chance(break_p, 6) {
+                if !last && depth > 0 && (t != "'" || rng.chance(1, 3)) && rng.chance(break_p, 6) {
                     if rng.chance(1, 5) {
                         line.push_str(" ; trailing comment (");
                     }
